@@ -1718,8 +1718,12 @@ def b1(ctx):
         for i, (a, p) in enumerate(zip(an, pn)):
             if p is None or a == p or (a, p) in B1_SYNONYMS:
                 continue
-            bad.append('argument %d is accepted as `%s` but reaches parameter `%s`%s'
-                       % (i, a, p, ' (and `%s` is the name of parameter %d)' % (a, pn.index(a)) if a in pn else ''))
+            if a not in pn:
+                # the keyword names no parameter of the target at all: the parameters were renamed
+                # (their spelling is not an interface); nothing to compare
+                continue
+            bad.append('argument %d is accepted as `%s` but reaches parameter `%s` (`%s` is the name of '
+                       'parameter %d)' % (i, a, p, a, pn.index(a)))
         ctx.check('_C.%s.%s/keywords' % (owner, name), not bad,
                   '_C %s.%s: keywords %s reach the parameters of the same name' % (owner, name, an),
                   '_C %s.%s: %s' % (owner, name, '; '.join(bad)), getattr(b.node, 'loc', None))
